@@ -575,6 +575,10 @@ func (e *SpecEnv) selector(n *ast.SelectorExpr) (SV, error) {
 		if al, ok := e.state().heap["alloc"]; ok {
 			w.assume(fmt.Sprintf("(or (= (sbase %s) 0) (select %s (sbase %s)))", cur.S, al.S, cur.S))
 		}
+	} else if _, isMap := typ.Underlying().(*types.Map); isMap {
+		if al, ok := e.state().heap["alloc"]; ok {
+			w.assume(fmt.Sprintf("(or (= %s 0) (select %s %s))", cur.S, al.S, cur.S))
+		}
 	}
 	return SV{cur, typ}, nil
 }
